@@ -43,7 +43,11 @@ type Result struct {
 	Steps     int
 	WaitGraph string
 	Diverged  string // non-empty: replay prefix did not fit the execution (hard error)
+	Trace     []string // every scheduling call "t<id>:<op>" (only when TraceOn)
 }
+
+// TraceOn makes Run record every scheduling call (debugging of nondeterminism).
+var TraceOn bool
 
 // Choices returns the choice vector of an execution.
 func (r *Result) Choices() []int {
@@ -181,6 +185,16 @@ func GoNamed(name string, f func()) {
 	Point("go", nil)
 }
 
+// Spawn starts f as a new controlled thread without a scheduling point at the spawn (harness drivers
+// use it to start all scenario threads "at once"; the first choice is taken when the spawner blocks or ends).
+func Spawn(name string, f func()) {
+	if !s.active {
+		panic("vsched.Spawn outside a controlled execution")
+	}
+	t := s.newThread(name)
+	go s.threadMain(t, f)
+}
+
 // Point is a scheduling point in front of an always-enabled operation.
 func Point(desc string, obj interface{}) {
 	if !s.active {
@@ -225,6 +239,13 @@ func (sc *sched) abort() {
 // schedule picks the next thread. self is the calling thread (parked at its pending op, or done).
 func (sc *sched) schedule(self *Thread) {
 	sc.res.Steps++
+	if TraceOn {
+		d := self.desc
+		if self.done {
+			d = "exit"
+		}
+		sc.res.Trace = append(sc.res.Trace, fmt.Sprintf("t%d:%s", self.ID, d))
+	}
 	if sc.res.Steps > sc.horizon {
 		sc.res.Horizon = true
 		sc.res.WaitGraph = sc.waitGraph()
